@@ -176,10 +176,12 @@ EvFn(node, st0, ctx) ==
                    bump == ~Has(node, "onmatch") \/ rs[1].vote
                    new == IF bump THEN cur + 1 ELSE cur
                IN R(VInt(new), D, [st EXCEPT !.vars = SetTracked(st.vars, v, A(1), VInt(new))])
-    [] nm = "count_lines"  -> R(VInt(ctx.dataCount), D, st)
-    [] nm = "line_number"  -> R(VInt(ctx.k), D, st)
-    [] nm = "count_scans"  -> R(VInt(st.scanCount), D, st)
-    [] nm = "total_lines"  -> R(VInt(ctx.totalData), D, st)
+    \* pure value producers: they have no vote of their own (matches() answers None, i.e. negative);
+    \* the generators use them in value position only
+    [] nm = "count_lines"  -> R(VInt(ctx.dataCount), FALSE, st)
+    [] nm = "line_number"  -> R(VInt(ctx.k), FALSE, st)
+    [] nm = "count_scans"  -> R(VInt(st.scanCount), FALSE, st)
+    [] nm = "total_lines"  -> R(VInt(ctx.totalData), FALSE, st)
     [] nm = "has_matches"  -> R(VBool(TRUE), TRUE, st)
     [] nm = "counter" ->
           LET v == node.name_q
@@ -287,7 +289,10 @@ Ev(node, st, ctx) ==
 RECURSIVE Fold(_, _, _, _)
 \* failed: AND mode starts not-failed and any False fails; OR mode starts failed and any True rescues
 Fold(i, failed, st, ctx) ==
-  IF i > Len(ctx.comps) THEN [matched |-> ~failed, st |-> st, aborted |-> FALSE]
+  IF i > Len(ctx.comps)
+    THEN \* skip() fired in the final component: the line does not match, the next line starts clean
+         IF st.skip THEN [matched |-> FALSE, st |-> [st EXCEPT !.skip = FALSE], aborted |-> TRUE]
+         ELSE [matched |-> ~failed, st |-> st, aborted |-> FALSE]
   ELSE IF st.stopped THEN [matched |-> FALSE, st |-> st, aborted |-> TRUE]
   ELSE IF st.skip THEN [matched |-> FALSE, st |-> [st EXCEPT !.skip = FALSE], aborted |-> TRUE]
   ELSE IF st.memo[i] # "n"
@@ -296,6 +301,17 @@ Fold(i, failed, st, ctx) ==
   ELSE LET r == EvComp(ctx.comps[i], [st EXCEPT !.cur = i], ctx)
            st2 == [r.st EXCEPT !.memo[i] = IF r.vote THEN "t" ELSE "f"]
        IN Fold(i + 1, IF ctx.AND THEN failed \/ ~r.vote ELSE failed /\ ~r.vote, st2, ctx)
+
+\* Matcher._do_lasts: when the file ends in a blank record only the last() components run
+\* (bare, or left of '->' whose action then runs unfrozen); nothing is returned.
+IsLastComp(c) == \/ (c.k = "fn" /\ c.name = "last")
+                 \/ (c.k = "when" /\ c.args[1].k = "fn" /\ c.args[1].name = "last")
+RECURSIVE DoLasts(_, _, _)
+DoLasts(i, st, ctx) ==
+  IF i > Len(ctx.comps) THEN st
+  ELSE IF IsLastComp(ctx.comps[i])
+    THEN DoLasts(i + 1, Ev(ctx.comps[i], [st EXCEPT !.cur = i], ctx).st, ctx)
+    ELSE DoLasts(i + 1, st, ctx)
 
 MatchLine(st, ctx) ==
   Fold(1, ~ctx.AND, [st EXCEPT !.memo = [j \in 1..Len(ctx.comps) |-> "n"], !.cur = 0], ctx)
